@@ -230,9 +230,10 @@ def handleProc (j : Json) : R Json := do
         ++ (match dev with
           | some l => [("terminal", jOk (jAnyOf (terminalAnswers l r.ttyNr)))]
           | none => [("terminal", jOk (jOpt jBytes (Spec.terminal tmap r)))])
-        ++ (match dev2 with
-          | some l2 => [("terminal_stale", jOk (jAnyOf (terminalAnswers l2 r.ttyNr)))]
-          | none => [])
+        ++ (match dev, dev2 with
+          -- histories: exact for the /dev of the FIRST call of the interpreter (C06_terminal_first_scan_wins)
+          | some l, some _ => [("terminal_stale", jOk (jAnyOf (terminalAnswers l r.ttyNr)))]
+          | _, _ => [])
       else []
     | .inr _ => []
   let thrRecs : Option (List Spec.StatRec) := threads.mapM fun (_, t) =>
